@@ -287,6 +287,7 @@ func Run(c Case, opts RunOpts) *Result {
 	keysAt := refproto.RoundSlot(res.TStart.Unix())
 	txCount := map[identity]int{}
 	dropCount := map[identity]int{}
+	hsDrops := map[uint32]int{} // handshake-phase datagrams lost per session (both directions)
 	ackRun := [2]int{}
 	pl := c.Plan
 	prf := func(idx int) uint64 {
@@ -367,12 +368,14 @@ func Run(c Case, opts RunOpts) *Result {
 					fate.Drop = false
 					fate.Note = "fairness: ack run"
 				}
-			} else if (cls == "openreq" || cls == "openresp" || seg.Meta.Seq <= 2) && dropCount[id] >= 1 {
+			} else if (cls == "openreq" || cls == "openresp" || seg.Meta.Seq <= 2) && (dropCount[id] >= 1 || hsDrops[seg.Meta.SessionID] >= 2) {
 				// The client gives up on a session whose SOCKS5 response does not
 				// arrive within 10 s, and before a sender has an RTT sample an
 				// unanswered datagram is retransmitted after 3 s, 4.5 s, 6.75 s:
 				// losing the same handshake-phase datagram (open request/response,
-				// first data segments) twice is no longer a "fair share".
+				// first data segments) twice is no longer a "fair share" - and neither
+				// is losing three different ones of one session in a row (open request,
+				// open response, the segment with the SOCKS5 response: 3 x 3 s).
 				fate.Drop = false
 				fate.Note = "fairness: handshake"
 			} else if dropCount[id] >= pl.MaxDrops {
@@ -389,6 +392,9 @@ func Run(c Case, opts RunOpts) *Result {
 		}
 		if fate.Drop {
 			dropCount[id]++
+			if cls == "openreq" || cls == "openresp" || seg.Meta.Seq <= 2 {
+				hsDrops[seg.Meta.SessionID]++
+			}
 		}
 		return fate
 	})
